@@ -538,3 +538,64 @@ func rofElemOf(pa *ssa.Parameter) (ssa.Value, ssa.Instruction, bool) {
 	})
 	return tbl, loop, nil != tbl
 }
+
+// globalOnce: the value a package-level variable of the module is given by
+// its one assignment (in the package initialiser), when nothing else in the
+// module writes it or takes its address; nil otherwise.  v is a load of it.
+func (p *Prog) globalOnce(v ssa.Value) ssa.Value {
+	u, ok := v.(*ssa.UnOp)
+	if !ok || token.MUL != u.Op {
+		return nil
+	}
+	g, ok := u.X.(*ssa.Global)
+	if !ok || !p.ownGlobal(g) {
+		return nil
+	}
+	var val ssa.Value
+	n := 0
+	p.eachModuleInstr(g, func(i ssa.Instruction) {
+		for _, op := range i.Operands(nil) {
+			if nil == *op || *op != ssa.Value(g) {
+				continue
+			}
+			switch x := i.(type) {
+			case *ssa.Store:
+				if x.Addr == ssa.Value(g) && x.Val != ssa.Value(g) {
+					n++
+					val = x.Val
+					if "init" != i.Parent().Name() || i.Parent().Pkg != g.Pkg {
+						n++
+					}
+					continue
+				}
+				n += 2 /* the address is stored somewhere */
+			case *ssa.UnOp:
+				if token.MUL != x.Op {
+					n += 2
+					continue
+				}
+				/* An element written through the variable. */
+				if nil != x.Referrers() {
+					for _, r := range *x.Referrers() {
+						ia, isIA := r.(*ssa.IndexAddr)
+						if !isIA || nil == ia.Referrers() {
+							continue
+						}
+						for _, r2 := range *ia.Referrers() {
+							if st, isSt := r2.(*ssa.Store); isSt && st.Addr == ssa.Value(ia) {
+								n += 2
+							}
+						}
+					}
+				}
+			case *ssa.DebugRef:
+			default:
+				n += 2
+			}
+		}
+	})
+	if 1 != n {
+		return nil
+	}
+	return val
+}
